@@ -30,6 +30,7 @@ u8 __verif_ctpop8(u8 x); u16 __verif_ctpop16(u16 x); u32 __verif_ctpop32(u32 x);
 u8 __verif_ctlz8(u8 x, u1 z); u16 __verif_ctlz16(u16 x, u1 z); u32 __verif_ctlz32(u32 x, u1 z); u64 __verif_ctlz64(u64 x, u1 z);
 u8 __verif_cttz8(u8 x, u1 z); u16 __verif_cttz16(u16 x, u1 z); u32 __verif_cttz32(u32 x, u1 z); u64 __verif_cttz64(u64 x, u1 z);
 u16 __verif_bswap16(u16 x); u32 __verif_bswap32(u32 x); u64 __verif_bswap64(u64 x);
+u8 __verif_fshl8(u8 a, u8 b, u8 c); u8 __verif_fshr8(u8 a, u8 b, u8 c); u16 __verif_fshl16(u16 a, u16 b, u16 c); u16 __verif_fshr16(u16 a, u16 b, u16 c);
 u32 __verif_fshl32(u32 a, u32 b, u32 c); u64 __verif_fshl64(u64 a, u64 b, u64 c);
 u32 __verif_fshr32(u32 a, u32 b, u32 c); u64 __verif_fshr64(u64 a, u64 b, u64 c);
 
@@ -43,5 +44,6 @@ extern int __verif_memo_miss;   /* number of products/quotients that did not hit
 
 /* float<->double conversions with the x86 (and IEEE recommended) NaN rule: sign kept, payload truncated/extended, quiet bit set */
 float __verif_d2f(double x); double __verif_f2d(float x);
+u8* __verif_alloc_exact(u64 n);   /* exact-size heap object, constant-size cases for small n */
 #define __verif_bitcast(ST, DT, x) (((union { ST s; DT d; }){ .s = (x) }).d)
 #endif
